@@ -321,6 +321,7 @@ class Mesh:
         self.nc = nx * ny * nz
         cell = lambda i, j, k: (k * ny + j) * nx + i
         trip = []
+        face_axis: list = []
         nf = 0
         for axis in range(dim):
             ext = [nx, ny, nz]
@@ -335,8 +336,10 @@ class Mesh:
                             trip.append((nf, cell(*lo), 1))
                         if pos[axis] < dims[axis]:
                             trip.append((nf, cell(*pos), -1))
+                        face_axis.append(axis)
                         nf += 1
         self.nf = nf
+        self.face_axis = face_axis      # model assumption used only for data-dependent choices: |N[face_axis[f], f]| is the largest component of N[:, f]
         self.half = sorted(trip, key=lambda t: (t[1], t[0]))
         self.cells_of = {f: [(c, s) for f2, c, s in self.half if f2 == f] for f in range(nf)}
         self.boundary = [f for f in range(nf) if len(self.cells_of[f]) == 1]
@@ -356,6 +359,19 @@ class Mesh:
 
     def cell_faces(self) -> SpM:
         return SpM.from_entries((self.nf, self.nc), "csc", [(f, c, sp.Integer(s)) for f, c, s in self.half])
+
+    def dominant_axis_oracle(self, fname: str, x: np.ndarray, axis):
+        """argmax over the components of |face normals|: decided by the model assumption `face_axis` (each face of the Cartesian
+        pattern is closest to its own coordinate axis); anything else stays undecided"""
+        if fname != "argmax" or axis != 0 or x.ndim != 2 or x.shape[1] != self.nf or x.shape[0] > 3:
+            return None
+        for f in range(self.nf):
+            for i in range(x.shape[0]):
+                if x[i, f] != sp.Abs(self.N[i, f]):
+                    return None
+        if any(a_ >= x.shape[0] for a_ in self.face_axis):
+            return None
+        return np.array(self.face_axis, dtype=int)
 
     def grid(self, fracture=(), periodic=None) -> Obj:
         """the object playing the role of `sd`"""
@@ -476,6 +492,7 @@ class World:
                 if isinstance(tg, ast.Attribute) and isinstance(tg.value, ast.Name) and tg.value.id == "self" and isinstance(val, ast.Constant):
                     self.selfattrs[tg.attr] = val.value
         self.store_nodes: dict = {}
+        self.oracle = None          # optional model knowledge for data-dependent choices: (function name, array, axis) -> value or None
         self.matdict: Optional[dict] = None
         self.steps = 0
 
@@ -1743,7 +1760,10 @@ def _np_argext(fn):
             try:
                 x = np.array([_as_int(t) for t in x.reshape(-1)], dtype=int).reshape(x.shape)
             except Undecided:
-                return Unknown(f"{fn.__name__} of symbolic values (data-dependent choice)")
+                ax_ = k.get("axis", a[1] if len(a) > 1 else None)
+                oracle = getattr(it.w, "oracle", None)
+                res_ = oracle(fn.__name__, x, None if ax_ is None else _as_int(ax_)) if oracle is not None else None
+                return res_ if res_ is not None else Unknown(f"{fn.__name__} of symbolic values (data-dependent choice)")
         ax = k.get("axis", a[1] if len(a) > 1 else None)
         res = it.nat(e, fn, x, axis=None if ax is None else _as_int(ax))
         return int(res) if isinstance(res, np.integer) else res
